@@ -30,6 +30,7 @@ InterrogateType(InterrogateModuleDef *def) :
   InterrogateComponent(def)
 {
   _flags = 0;
+  _global_by_merge = false;
   _outer_class = 0;
   _atomic_token = AT_not_atomic;
   _wrapped_type = 0;
@@ -93,6 +94,7 @@ void InterrogateType::
 operator = (const InterrogateType &copy) {
   InterrogateComponent::operator = (copy);
   _flags = copy._flags;
+  _global_by_merge = copy._global_by_merge;
   _scoped_name = copy._scoped_name;
   _true_name = copy._true_name;
   _comment = copy._comment;
@@ -117,24 +119,76 @@ operator = (const InterrogateType &copy) {
 /**
  * Combines type with the other similar definition.  If one type is "fully
  * defined" and the other one isn't, the fully-defined type wins.  If both
- * types are fully defined, whichever type is marked "global" wins.
+ * types are fully defined, whichever type is marked "global" wins.  See
+ * is_preferable_to() for the complete rule; it does not depend on which of
+ * the two definitions happened to be loaded first.
  */
 void InterrogateType::
 merge_with(const InterrogateType &other) {
-  // The only thing we care about copying from the non-fully-defined type
-  // right now is the global flag.
+  // The only thing we care about copying from the losing definition right
+  // now is the global flag.
+  bool was_global = (_flags & F_global) != 0;
 
-  if (is_fully_defined() &&
-      (!other.is_fully_defined() || (other._flags & F_global) == 0)) {
-    // We win.
-    _flags |= (other._flags & F_global);
+  if (other.is_preferable_to(*this)) {
+    // They win.
+    (*this) = other;
+    if (was_global && (_flags & F_global) == 0) {
+      _flags |= F_global;
+      _global_by_merge = true;
+    }
 
   } else {
-    // They win.
-    int old_flags = (_flags & F_global);
-    (*this) = other;
-    _flags |= old_flags;
+    // We win.
+    if (!was_global && (other._flags & F_global) != 0) {
+      _flags |= F_global;
+      _global_by_merge = true;
+    }
   }
+}
+
+/**
+ * Returns true if this definition of a type should replace the other
+ * definition of the same type when the two are merged, false if the other one
+ * should be kept.  This is an ordering of the definitions themselves, so that
+ * merging any number of them yields the same one whatever the sequence.
+ */
+bool InterrogateType::
+is_preferable_to(const InterrogateType &other) const {
+  // A fully-defined type beats one that is not.
+  if (is_fully_defined() != other.is_fully_defined()) {
+    return is_fully_defined();
+  }
+
+  if (is_fully_defined()) {
+    // Of two fully-defined types, the one that was itself marked global wins.
+    bool this_global = (_flags & F_global) != 0 && !_global_by_merge;
+    bool other_global = (other._flags & F_global) != 0 && !other._global_by_merge;
+    if (this_global != other_global) {
+      return this_global;
+    }
+
+  } else {
+    // Neither one is fully defined.  The library that contains a class without
+    // published members still records its base classes, which other
+    // libraries need to follow the inheritance chain; a mere reference from
+    // another library knows nothing.  Keep the one that knows more.
+    if (_derivations.empty() != other._derivations.empty()) {
+      return !_derivations.empty();
+    }
+    if (((_flags ^ other._flags) & F_unpublished) != 0) {
+      return (_flags & F_unpublished) != 0;
+    }
+  }
+
+  // Otherwise, it is a tie, which we break by library and module name.
+  std::string this_name = has_library_name() ? get_library_name() : "";
+  std::string other_name = other.has_library_name() ? other.get_library_name() : "";
+  if (this_name != other_name) {
+    return this_name < other_name;
+  }
+  this_name = has_module_name() ? get_module_name() : "";
+  other_name = other.has_module_name() ? other.get_module_name() : "";
+  return this_name < other_name;
 }
 
 /**
